@@ -1,7 +1,7 @@
 (** Dispatcher of the executable model: one input line -> one observation
     line, for the generated tables and for the specified tables. *)
 From Coq Require Import String.
-From PSA Require Import Base Lines Lifecycle Regex Claims Obs CaseClaims RunC14 RunHist Tags Wire Codec RunCodec Evidence RunEv Cose RunCose Embedded RunEmb Registry RunReg Json JsonCodec RunJson Purity Effects RunPur.
+From PSA Require Import Base Lines Lifecycle Regex Claims Obs CaseClaims RunC14 RunHist Tags Wire Codec RunCodec Evidence RunEv Cose RunCose Embedded RunEmb Registry RunReg Json JsonCodec RunJson Purity Effects RunPur Conc RunConc.
 From PSA.Spec Require Import SpecTables SpecTags.
 From PSA.Gen Require Import GenConsts GenTags GenEffects.
 Open Scope N_scope.
@@ -31,6 +31,7 @@ Definition run_line (fx : fxcfg) (cfg : ccfg) (w : wcfg) (line : bytes) : bytes 
       else if bytes_eqb p (s2b "REG") then run_reg cfg args
       else if bytes_eqb p (s2b "ALL") then s2b "*"      (* every entry point on arbitrary bytes: judged by the no-panic / allocation oracles *)
       else if bytes_eqb p (s2b "PUR") then run_pur fx cfg w args
+      else if bytes_eqb p (s2b "CONC") then run_conc fx cfg w args
       else if bytes_eqb p (s2b "TAMP") then run_tamp cfg w args
       else if bytes_eqb p (s2b "DECV") then run_decv cfg w args
       else bad_input
